@@ -8,6 +8,7 @@ Does not decide: third-party extensions raising pruning exceptions themselves; t
 from __future__ import annotations
 
 import ast
+import re
 from typing import Dict, List, Optional, Set, Tuple
 
 from ..core import AnalysisError, Cls, Func, Repo, dotted, norm, parents
@@ -179,7 +180,25 @@ def run(repo: Repo, chk: Check, thorough: bool = False) -> None:
             ok = bool(rer) and bool(aft) and all(any(cf.dominates(a, r, no_exc=True) for a in aft) for r in rer)
             chk.ob('R19.2', f'{VIS}.visit :: pruning re-raised after the extensions', ok,
                    'raise follows the AFTER+INNER loop' if ok else 'the delayed pruning exception is dropped or raised before the extensions ran', f.loc)
-    chk.require('R19.2', 13)
+    # the two dispatchers resolve handler names the same way (visit_X / visit_x / unknown_visit  ~  depart_X / depart_x / unknown_departure):
+    # an extension method found on the way in must be found on the way out
+    bv, bd = repo.func('pydoctor.visitor._BaseVisitor.visit'), repo.func('pydoctor.visitor._BaseVisitor.depart')
+
+    def shape(f: Func) -> str:
+        loc_names: List[str] = []
+        for st in f.body():
+            for n in ast.walk(st):
+                if isinstance(n, ast.Name) and isinstance(n.ctx, ast.Store) and n.id not in loc_names:
+                    loc_names.append(n.id)     # numbered in order of first binding: independent of the names chosen
+        txt = ' ; '.join(norm(st) for st in f.body() if not (isinstance(st, ast.Expr) and isinstance(st.value, ast.Constant)))
+        for i, nm in enumerate(loc_names):
+            txt = re.sub(rf'\b{re.escape(nm)}\b', f'v{i}', txt)
+        return txt.replace('unknown_departure', 'unknown_X').replace('unknown_visit', 'unknown_X').replace("'depart_'", "'X_'").replace("'visit_'", "'X_'")
+    sv, sd = shape(bv), shape(bd)
+    chk.ob('R19.2', '_BaseVisitor.visit ~ _BaseVisitor.depart :: same handler-name resolution', sv == sd and 'X_' in sv,
+           sv[:120] if sv == sd else f'visit resolves `{sv[:110]}` but depart resolves `{sd[:110]}`: a handler reached on entry has no counterpart on exit '
+           '(or the reverse), so an extension is entered on nodes it never leaves', bd.loc)
+    chk.require('R19.2', 14)
 
     # ------------------------------------------------------------------ R19.3
     mv = repo.cls('pydoctor.astbuilder.ModuleVistor')
@@ -236,6 +255,22 @@ def run(repo: Repo, chk: Check, thorough: bool = False) -> None:
                    'every raise self.Skip*() is before the scope is entered' if not late else
                    f'`{norm(late[0])}` (line {late[0].lineno}) can follow the push: the scope is entered but depart_{k} (the pop) is skipped',
                    repo.loc(g.mod, c))
+        # an exit that does NOT enter the scope must skip both the children and depart_<k> (the pop): only SkipNode does that
+        if d is not None and pops:
+            seen_f: Set[str] = set()
+            reach_calls(v, set(), seen_f)
+            for qn in sorted(seen_f):
+                g = repo.funcs[qn]
+                for n in g.walk():
+                    if isinstance(n, ast.Raise) and n.exc is not None and 'Skip' in norm(n.exc):
+                        exc = n.exc.func if isinstance(n.exc, ast.Call) else n.exc
+                        nm = exc.attr if isinstance(exc, ast.Attribute) else norm(exc)
+                        chk.ob('R19.3', f'{g.qn} [visit_{k}] :: exit without entering the scope is SkipNode',
+                               nm == 'SkipNode',
+                               'the children are not walked in the enclosing scope and the pop is not run' if nm == 'SkipNode' else
+                               f'`{norm(n)}`: walkabout() then ' + ('still calls depart_' + k + ' (a pop without a push)' if nm == 'SkipChildren' else
+                                                                  'still walks the children, with the enclosing scope as current object') +
+                               ' - only SkipNode prunes both', repo.loc(g.mod, n))
     if n_pairs < 4:
         chk.error(f'R19.3: only {n_pairs} pushing visit methods found in ModuleVistor (Module, ClassDef, FunctionDef, AsyncFunctionDef confirmed by hand)')
     # every raise of a pruning exception in the main visitor is in a visit_* path that did not push (count)
